@@ -32,6 +32,16 @@ CHECKS = {
         text="Exact rational arithmetic (math/big) is the reference for plus, minus, times, divided_by, modulo, abs, ceil, floor, round over all pairs of a ~110-operand numeric universe (ints -12..12 and boundary magnitudes up to 2^53 as int and float, other widths, quarters, numeric and non-numeric strings, nil), as variables and literals, plus all chains of two and three binary steps over a 7-value universe; results must parse back to the exact value whenever operands and result are float64-representable, whole results print as digits, ceil/floor print integers, division/modulo by zero and non-numeric strings must be errors.",
         note="Accepted alternatives: floor or truncation for negative integer quotients, either sign convention for modulo. Unspecified: nil operands, numeric strings as arguments.",
         tech="exhaustive operand-pair and operation-chain enumeration against exact rational arithmetic"),
+    "C10": dict(
+        cat="model_checking", ref="4/C10",
+        text="Reference branch selection (first truthy condition; exactly nil and false falsy) is compared with the real tags on every if/elsif/else chain of 1..4 (quick) / 1..6 (thorough) branches over every vector of a 9-value truthiness universe, with and without else; each condition carries a logging probe so the set and order of evaluated conditions is compared too, and poison variants place a failing filter in every condition after the selected branch. unless, case/when (selection by the implementation's own ==, validated by C09), the if/unless duality over every (pair, operator) of the C09 universe, two-level nestings and conditionals inside loops are enumerated the same way.",
+        note="Probes are a registered identity filter and logging Drops; unspecified: evaluation of later values inside the selected when clause.",
+        tech="exhaustive program enumeration over a truthiness universe against a reference branch selector, with evaluation-order probes"),
+    "C11": dict(
+        cat="model_checking", ref="4/C11",
+        text="A reference selection function (reverse, skip offset, take limit), the forloop formulas and a small reference interpreter for nested loops are compared with the real for/tablerow/cycle/break/continue on the complete grid length 0..5|7 x offset x limit x reversed x 10 body variants x 5 collection representations x 3 modifier spellings, tablerow x cols, all range endpoint pairs in -3..6, maps of 0..4 entries (multiset of pairs), 14 nothing-selected cases (else must render) and every nested loop program of depth <=2|3 with break/continue at each index and four cycle variants per level.",
+        note="Unspecified: negative offset/limit, cols: 0, class names of tablerow; cycle counters are per loop execution.",
+        tech="exhaustive grid and nested-program enumeration against a reference loop interpreter"),
 }
 
 NOT_YET = "check not built yet (work in progress; see DESIGN.md section 7 build order)"
